@@ -1209,16 +1209,16 @@ def stream_cli_simple(seed, tier, workdir, stream):
             if cs:
                 c = r.choice(cs2 or cs)
                 free = [p for p in range(len(doc["participants"])) if not any(p in co["instructors"] for co in doc["courses"])]
-                if free and i % 20 == 9:
+                if free and i % 30 != 9:
                     # … also when another instructor stands between the two entries ([a, b, a])
                     c["instructors"].append(free[(i // 20) % len(free)])
                 c["instructors"].append(c["instructors"][0])
         cases.append({"doc": doc, "rooms": rooms, "threads": r.choice([1, 1, 2, 4, None]), "print": r.random() < 0.8,
-                      "stale": r.random() < 0.3, "output": r.random() < 0.9})
+                      "stale": r.random() < 0.3, "output": r.random() < 0.9 or i % 10 == 9})
         # the default worker count on a machine where the process sees a single CPU
         cases[-1]["pin"] = cases[-1]["threads"] is None and r.random() < 0.6
         cases[-1]["rooms_file"] = rooms is not None and r.random() < 0.35
-        if i % 12 == 5 and len(doc["courses"]) >= 2 and doc["participants"]:
+        if i % 12 == 5 and i % 10 != 9 and len(doc["courses"]) >= 2 and doc["participants"]:
             # (see lines_cli_simple) somebody instructs two or three courses
             p_ = r.randrange(len(doc["participants"]))
             for c_ in r.sample(doc["courses"], min(len(doc["courses"]), r.choice([2, 2, 3]))):
@@ -1407,7 +1407,7 @@ def lines_cli_simple(cases, workdir, stream, binary):
                     shape = (isinstance(a, list) and len(a) == np_ and all(x is None or (isinstance(x, int) and not isinstance(x, bool) and 0 <= x < nc) for x in a)
                              and res.get("format") == "X-courseassignment-simple" and res.get("version") == "1.1" and isinstance(res.get("quality"), dict)
                              and set(res.keys()) == {"format", "version", "assignment", "quality"})
-                    out.append(line("direct", ["C14", "C16"], ok=shape, what=f"output file: keys {sorted(res.keys())}, assignment {a}", case=i, stream=stream))
+                    out.append(line("direct", ["C14", "C16", "C01"], ok=shape, what=f"output file: keys {sorted(res.keys())}, assignment {a} for {np_} participants and {nc} courses", case=i, stream=stream))
                     if not shape:
                         a = None
                 except Exception as e:
